@@ -15,6 +15,7 @@ from props.c07 import gen_frame_cols
 F_EMPTY_REX = 'c01-empty-frame-rex'
 F_TZ = 'c01-tz-aware-dates'
 F_STR = 'c01-str-dtypes-not-recognised'
+F_NUL = 'c01-nul-strings-merged'
 F_DATEOBJ = 'c01-date-objects-file-roundtrip'
 
 
@@ -39,6 +40,17 @@ def extra_frames(rng):
                        'k': [4, 5, 6]})
     out.append(('stacked', pd.concat([b1, b2])))
     out.append(('stacked-nullfirst', pd.concat([b2, b1])))
+    # strings that agree up to an embedded NUL character (pandas 3 Series.unique() merges them: a recorded finding)
+    out.append(('nul-strings', pd.DataFrame({'c': pd.Series(['a\0b', 'a\0cde', 'zz'], dtype=object)})))
+    # object columns whose non-null values are all the same, with None or NaN as the null marker
+    import numpy as np
+    combos = [(True, None), (False, np.nan), (True, np.nan), ('x', float('nan')), ('x y', pd.NA), ('x', None)]
+    for val, null in combos + [(rng.choice([True, False, 'q']), rng.choice([None, np.nan])) for _ in range(2)]:
+        cells = [val] * rng.randint(1, 3) + [null] * rng.randint(1, 2) + [val] * rng.randint(0, 2)
+        if isinstance(val, str) and rng.random() < 0.5:
+            cells.append(val + '2')
+        rng.shuffle(cells)
+        out.append(('constant-with-nulls %r' % (cells,), pd.DataFrame({'c': pd.Series(cells, dtype=object), 'k': range(len(cells))})))
     return out
 
 
@@ -133,8 +145,10 @@ def run(ctx):
         for tag, df in extra_frames(rng):
             for rex in (False, True):
                 for via_file in (False, True):
-                    ctx.count(('extra', tag, rex, via_file), True)
-                    r = run_one(ctx, df, {'extra': tag}, rex, via_file, False, False, work)
+                  for repair in (False, True):
+                    detect = rng.random() < 0.5
+                    ctx.count(('extra', tag, rex, via_file, repair, detect), True)
+                    r = run_one(ctx, df, {'extra': tag}, rex, via_file, detect, repair, work)
                     # a recognised column must produce constraints; unrecognised dtypes are the finding
                     from tdda.constraints import discover_df
                     with contextlib.redirect_stderr(io.StringIO()), contextlib.redirect_stdout(io.StringIO()):
@@ -146,8 +160,12 @@ def run(ctx):
                         ctx.fail({'extra': tag}, "a pandas-3 default 'str' column is not recognised as a string field: "
                                  'nothing is discovered', finding=F_STR)
                     if r is not None:
-                        ctx.fail({'extra': tag, 'rex': rex, 'via_file': via_file}, r[0],
-                                 finding={'tz': F_TZ, 'stringext': F_STR, 'strdtype': F_STR}.get(tag))
+                        fnd = {'tz': F_TZ, 'stringext': F_STR, 'strdtype': F_STR}.get(tag)
+                        if tag == 'nul-strings' and isinstance(r[1], tuple) and \
+                                all(set(ks) <= {'min_length', 'max_length', 'allowed_values', 'rex'} for ks in r[1][1].values()):
+                            fnd = F_NUL
+                        ctx.fail({'extra': tag, 'rex': rex, 'via_file': via_file, 'repair': repair, 'detect': detect}, r[0],
+                                 finding=fnd)
     finally:
         shutil.rmtree(work, ignore_errors=True)
     ctx.cov['rule'] = ('frames as in C07 x {rex off, on} x {dict, .tdda file} x {verify, detect} x {repair on, off}; '
